@@ -146,6 +146,16 @@ def _module_gconds(ctx):
     cls = ctx.src.find_class("htmltools._core.HTML")
     meths = [n.name for n in cls.body if isinstance(n, _ast.FunctionDef)]
     out.append(GCond("G:HTML:no__iadd__", "__iadd__" not in meths and "__mul__" not in meths, f"HTML defines {meths}: += is + (A4)"))
+    # A2 for metadata: MetadataNode / HTMLDependency are neither self-rendering nor tagifiable (the kinds of stored children partition)
+    for cname in ("MetadataNode", "HTMLDependency"):
+        try:
+            k = ctx.src.find_class("htmltools._core." + cname)
+            ms = [n.name for n in k.body if isinstance(n, (_ast.FunctionDef, _ast.AsyncFunctionDef))] + [t.id for n in k.body if isinstance(n, _ast.Assign) for t in n.targets if isinstance(t, _ast.Name)]
+            bases = [_ast.unparse(b) for b in k.bases]
+            okk = "_repr_html_" not in ms and "tagify" not in ms and all(b in ("MetadataNode", "object") for b in bases)
+            out.append(GCond(f"G:{cname}:not-self-rendering", okk, f"{cname}({', '.join(bases)}) defines {sorted(set(ms))[:12]}...: no _repr_html_ and no tagify (a metadata node is only ever skipped)"))
+        except Exception as ex:
+            out.append(GCond(f"G:{cname}:not-self-rendering", False, f"cannot read class: {ex}"))
     return out
 
 
